@@ -53,60 +53,80 @@ Proof. vm_compute. reflexivity. Qed.
 (* ---------------------------------------------------------------------------------------
    The archive as a whole.  [tar_node t] is the model of tar.go's recursion over a source tree
    t (Model/Tar.v): the elements written and the byte counter n it returns; [tar_bytes t] is
-   their encoding by FormatEncoder (Model/Format.v).  [good t] (Proofs/TarProofs.v) describes
-   the trees the disk source delivers: permission bits below 010000, 64-bit ids and times,
-   xattr names non-empty / NUL-free / ascending, child names valid single components in
-   strictly ascending byte order, symlink targets non-empty and NUL-free, no FIFO or socket. *)
+   their encoding by FormatEncoder (Model/Format.v).  [kept cs] are the children of a directory
+   that are not a FIFO or socket (tar() skips those before writing anything).
+   [good ord t] (Proofs/TarProofs.v) describes the trees a source delivers: permission bits below
+   010000, 64-bit ids and times, xattr names non-empty / NUL-free / ascending, child names valid
+   single components -- in strictly ascending byte order when ord = true (the disk source), in
+   any order when ord = false (a tar stream) --, symlink targets non-empty and NUL-free, FIFOs and
+   sockets anywhere except at the root.
+   [validate ord] is a reader written from casync's format rules: element sizes = encoded
+   lengths, ENTRY XATTR* then PAYLOAD | SYMLINK | DEVICE | (FILENAME node)* GOODBYE by file type,
+   xattr names strictly ascending, file names strictly ascending when ord = true, goodbye items =
+   the true back-offsets / extents / SipHash of the names laid out as a search tree that casync's
+   descent resolves, tail item. *)
 
 (* Offsets and sizes are true distances in the written bytes -- for EVERY directory node, with
    any children (any names, any order, FIFOs included): the bytes are the entry and xattrs, then
-   one block (FILENAME + child) per child, then the GOODBYE, which starts at offset G; its last
-   item is (G, size of the GOODBYE element, tail marker) and its other items are, in some order,
-   exactly one (G - F, L, SipHash(name)) per child, F = where the child's FILENAME starts,
-   L = number of bytes of the child's block.  And the counter tar() returns is the number of
-   bytes written. *)
+   one block (FILENAME + child) per kept child, then the GOODBYE, which starts at offset G; its
+   last item is (G, size of the GOODBYE element, tail marker) and its other items are, in some
+   order, exactly one (G - F, L, SipHash(name)) per kept child, F = where the child's FILENAME
+   starts, L = number of bytes of the child's block.  And the counter tar() returns is the number
+   of bytes written. *)
 Theorem C13_tar_offsets : forall m xs cs,
   let t := NDir m xs cs in
-  let before := encode_elems (head_elems t) ++ flat_map block_bytes cs in
+  let ks := kept cs in
+  let before := encode_elems (head_elems t) ++ flat_map block_bytes ks in
   let G := lenN before in
   exists table tail_size h,
     tar_bytes t = before ++ encode_elem (Goodbye h (table ++ [(G, tail_size, CaFormatGoodbyeTailMarker)])) /\
     tail_size = lenN (encode_elem (Goodbye h (table ++ [(G, tail_size, CaFormatGoodbyeTailMarker)]))) /\
     h_size h = tail_size /\
-    Permutation table (true_items G (lenN (encode_elems (head_elems t))) cs) /\
+    Permutation table (true_items G (lenN (encode_elems (head_elems t))) ks) /\
     snd (tar_node t) = lenN (tar_bytes t).
 Proof. exact tar_offsets_proof. Qed.
 Print Assumptions C13_tar_offsets.
 
 (* Every element written carries its true size: the header's size field is the length of the
    element's encoding and the decoder reads back exactly that element (wf_elem, Model/Format.v). *)
-Theorem C13_tar_sizes : forall t, good t -> (snd (tar_node t) < two64)%N -> Forall wf_elem (tar_model t).
+Theorem C13_tar_sizes : forall ord t, good ord t -> (snd (tar_node t) < two64)%N -> Forall wf_elem (tar_model t).
 Proof. exact tar_wf. Qed.
 Print Assumptions C13_tar_sizes.
 
-(* The archive of a good tree is accepted by [validate], a reader written from casync's format
-   rules (element sizes = encoded lengths, ENTRY XATTR* then PAYLOAD | SYMLINK | DEVICE |
-   (FILENAME node)* GOODBYE by file type, xattr and file names strictly ascending, goodbye items
-   = the true back-offsets / extents / SipHash of the names laid out as a search tree that
-   casync's descent resolves, tail item), and the reader returns the tree -- with every xattr
-   value one NUL byte longer ([casync_view]): see C13_tar_xattr_refuted. *)
-Theorem C13_tar_wellformed : forall t, good t -> (snd (tar_node t) < two64)%N ->
-  validate (tar_bytes t) = Some (casync_view t).
-Proof. exact tar_wellformed_proof. Qed.
+(* The archive of a good tree is accepted by the reader and the reader returns the tree as
+   [casync_view] shows it: FIFOs and sockets left out, every xattr value one NUL byte longer (see
+   C13_tar_xattr_refuted).  Disk source: names ascending, the reader insists on it. *)
+Theorem C13_tar_wellformed : forall t, good true t -> (snd (tar_node t) < two64)%N ->
+  validate true (tar_bytes t) = Some (casync_view t).
+Proof. exact (tar_wellformed_proof true). Qed.
 Print Assumptions C13_tar_wellformed.
+
+(* Tar-stream source: children in the order of the stream; everything but the name order is
+   judged (sizes, offsets, hashes, search tree, tail). *)
+Theorem C13_tar_wellformed_stream : forall t, good false t -> (snd (tar_node t) < two64)%N ->
+  validate false (tar_bytes t) = Some (casync_view t).
+Proof. exact (tar_wellformed_proof false). Qed.
+Print Assumptions C13_tar_wellformed_stream.
 
 (* FINDING (xattr/value-trailing-nul): a tree with one xattr "user.a"="v" is good, yet the reader
    does not get the tree back: tar.go writes name NUL value NUL, casync's value runs to the end
    of the element. *)
-Theorem C13_tar_xattr_refuted : exists t, good t /\ validate (tar_bytes t) <> Some t.
+Theorem C13_tar_xattr_refuted : exists t, good true t /\ validate true (tar_bytes t) <> Some t.
 Proof. exists ex_xattr_tree. exact tar_xattr_refuted_proof. Qed.
 Print Assumptions C13_tar_xattr_refuted.
 
-(* FINDING (tar/unsupported-node-dangling-filename): a directory holding a FIFO and a file gives
-   an archive the reader rejects (FILENAME not followed by ENTRY). *)
-Theorem C13_tar_fifo_refuted : exists t, validate (tar_bytes t) = None.
-Proof. exists ex_fifo_tree. exact tar_fifo_refuted_proof. Qed.
-Print Assumptions C13_tar_fifo_refuted.
+(* FIXED by 0d1baa3 (tar/unsupported-node-dangling-filename): the model of tar() before that
+   commit writes, for a directory holding a FIFO and a file, an archive the reader rejects
+   (FILENAME not followed by ENTRY) ... *)
+Theorem C13_tar_fifo_prefix_refuted : exists t, validate true (tar_bytes_v TarPreSkipFix t) = None.
+Proof. exists ex_fifo_tree. exact tar_fifo_prefix_refuted_proof. Qed.
+Print Assumptions C13_tar_fifo_prefix_refuted.
+
+(* ... the code as it is leaves the FIFO out: that tree is good and reads back as the directory
+   with the file alone (an instance of C13_tar_wellformed). *)
+Example C13_tar_fifo_fixed : good true ex_fifo_tree /\
+  validate true (tar_bytes ex_fifo_tree) = Some (NDir ex_meta [] [([98], NFile ex_meta [] [])])%N.
+Proof. exact tar_fifo_fixed_proof. Qed.
 
 (* Non-vacuity: a good tree with a nested directory, a symlink, a device and xattr-free files
    is accepted and returned unchanged. *)
@@ -114,5 +134,12 @@ Example C13_tar_example :
   (let m := mkMeta 493 0 0 1600000000000000000 in
    let t := NDir m [] [([97], NFile m [] [1; 2; 3]); ([98], NDir m [] [([120], NFile m [] [])]);
                        ([99], NSymlink m [] [97]); ([100], NDevice m [] true 1 3)] in
-   validate (tar_bytes t) = Some t)%N.
+   validate true (tar_bytes t) = Some t)%N.
 Proof. vm_compute. reflexivity. Qed.
+
+(* the unordered reader accepts names in stream order, the ordered one does not *)
+Example C13_tar_stream_example :
+  (let m := mkMeta 493 0 0 1600000000000000000 in
+   let t := NDir m [] [([98], NFile m [] [1]); ([97], NFile m [] [])] in
+   validate false (tar_bytes t) = Some t /\ validate true (tar_bytes t) = None)%N.
+Proof. vm_compute. split; reflexivity. Qed.
